@@ -268,6 +268,48 @@ func unknownTypes(r *Rng, n int) {
 	}
 }
 
+// largeRdata: records from the wire whose RDATA is tens of kilobytes long (types that end in an opaque octet
+// string, and unregistered types), at the sizes where a 15/16-bit quantity wraps: text, numeric header
+// spellings, RFC 3597 generic form and ToRFC3597 must all read back to the same octets.
+func largeRdata(r *Rng) {
+	prefix := map[uint16][]byte{
+		dns.TypeOPENPGPKEY: {},
+		dns.TypeDHCID:      {},
+		dns.TypeDNSKEY:     {1, 1, 3, 8},
+		dns.TypeCERT:       {0, 1, 0, 2, 8},
+		dns.TypeTLSA:       {3, 1, 1},
+		dns.TypeSSHFP:      {2, 1},
+		dns.TypeRKEY:       {0, 0, 3, 8},
+		dns.TypeZONEMD:     {0, 0, 0, 1, 1, 200},
+		65280:              {},
+		999:                {},
+	}
+	var ts []uint16
+	for t := range prefix {
+		ts = append(ts, t)
+	}
+	sort.Slice(ts, func(i, j int) bool { return ts[i] < ts[j] })
+	for _, t := range ts {
+		for _, n := range []int{16383, 16384, 32767, 32768, 32769, 40000, 65534, 65535} {
+			rd := append([]byte{}, prefix[t]...)
+			for len(rd) < n {
+				rd = append(rd, byte(r.Intn(256)))
+			}
+			w := append([]byte{1, 'k', 0, byte(t >> 8), byte(t), 0, 1, 0, 0, 1, 44, byte(n >> 8), byte(n)}, rd...)
+			rr, off, err := dns.UnpackRR(w, 0)
+			if err != nil || off != len(w) {
+				stats["large_rdata_rejected_by_unpack"]++
+				continue
+			}
+			stats["large_rdata_records_checked"]++
+			if o := checkRecord(rr, w); o.Kind != "" {
+				Viol("C05/large-rdata/"+typeName(t)+"/"+kindGroup(o.Kind), typeName(t)+" record with "+strconv.Itoa(n)+" octets of RDATA: "+o.Kind+": "+o.Detail,
+					violIn{Type: typeName(t), Origin: "wire", Text: o.Text, Detail: "rdlength " + strconv.Itoa(n) + ": " + o.Detail})
+			}
+		}
+	}
+}
+
 // noRdata: records without RDATA (dynamic update), built as structs.
 func noRdata(types []uint16) {
 	var failing []string
@@ -461,6 +503,7 @@ func runC05(r *Rng, tier string, n int) {
 	unknownTypes(r, unk)
 	// (4) records without RDATA
 	noRdata(types)
+	largeRdata(r)
 	// (5) all type and class code points
 	codeSweep(r, tier)
 	// (6) independent reader of character-strings
